@@ -141,7 +141,19 @@ WaitingOnlyWhilePending == (NCalls > 0 /\ Calls[NCalls].out.k = "waiting") => s.
 IsHostStep == Len(hist') = Len(hist) + 1 /\ hist'[Len(hist')].ev = "hostset"
 TypeStable == [][IsHostStep \/ \A v \in DOMAIN s.store :
                     s.store[v].t # "u" => s'.store[v].t = s.store[v].t]_vars
-FailedStepFrozen == [][(~IsHostStep /\ s'.out.k = "error") => s'.store = s.store]_vars
+\* One Next call may run several statements, so "a failing statement leaves every
+\* variable as it was" reads, at the granularity of calls: the store after the call is
+\* the store before it with exactly the logged writes applied in order - a failing
+\* statement logs no write, hence changes nothing (and the refinement of YarnSem
+\* fixes WHICH writes are logged: one per successful assignment, none for a failing one).
+RECURSIVE ApplyWrites(_, _, _)
+ApplyWrites(st, w, i) == IF i > Len(w) THEN st
+                         ELSE ApplyWrites([st EXCEPT ![w[i].var] = w[i].val], w, i + 1)
+FailedStepFrozen == [][~IsHostStep => s'.store = ApplyWrites(s.store, s'.writes, 1)]_vars
+\* the statement executed next, on its own: if it fails the store is untouched
+NextStatementFrozen ==
+  (~IsOos /\ ~s.ended /\ s.cmd.st = "none" /\ s.wait = <<>>) =>
+     LET t == Step(P, [s EXCEPT !.mode = "run", !.out = NoOut]) IN t.out.k = "error" => t.store = s.store
 WritesExplainStore ==   \* the store changes only through the logged writes
   [][~IsHostStep => \A v \in DOMAIN s.store :
         s'.store[v] # s.store[v] => \E i \in DOMAIN s'.writes : s'.writes[i].var = v]_vars
